@@ -427,6 +427,34 @@ fn negatives() -> Vec<(&'static str, String)> {
             ));
         }
     }
+    // a value of a generic type's instance that has no impl (another instance has one), reaching a dyn
+    // position in every form a value can be written and through every coercion site
+    let dhead = "trait Sh { fn sh(Self) -> string; }\nstruct Bx[T] { v: T }\nenum Op[T] { So(T), No }\nimpl Sh for Bx[int32] { fn sh(self: Bx[int32]) -> string { \"bx\" } }\nimpl Sh for Op[int32] { fn sh(self: Op[int32]) -> string { \"op\" } }\nimpl Sh for (int32, Bx[int32]) { fn sh(self: (int32, Bx[int32])) -> string { \"tp\" } }\nstruct Holder { d: dyn Sh }\nfn take(d: dyn Sh) -> string { Sh::sh(d) }\n";
+    let values = [
+        ("struct-literal", "Bx { v: \"s\" }", ""),
+        ("positional-constructor", "Bx(\"s\")", ""),
+        ("enum-constructor", "Op::So(\"s\")", ""),
+        ("bare-enum-constructor", "So(true)", ""),
+        ("tuple-with-a-literal", "(1, Bx { v: true })", ""),
+        ("annotated-local", "b", "let b: Bx[string] = Bx { v: \"s\" }; "),
+        ("inferred-local", "b", "let b = Bx { v: \"s\" }; "),
+        ("call-result", "mk()", ""),
+        ("if-result", "if true { Bx { v: \"s\" } } else { Bx { v: \"t\" } }", ""),
+    ];
+    let sites = [
+        ("annotated-let", "let d: dyn Sh = §; string_println(Sh::sh(d))"),
+        ("argument", "string_println(take(§))"),
+        ("struct-field", "let h = Holder { d: § }; string_println(\"built\")"),
+        ("returned", "let g = give(); string_println(\"got\")"),
+    ];
+    for (vn, value, pre) in values {
+        for (sn, site) in sites {
+            let name: &'static str = Box::leak(format!("dyn-coercion-without-impl;value={};site={}", vn, sn).into_boxed_str());
+            let give = if sn == "returned" { format!("fn give() -> dyn Sh {{ {}{} }}\n", pre, value) } else { String::new() };
+            let body = if sn == "returned" { site.to_string() } else { format!("{}{}", pre, site.replace('§', value)) };
+            v.push((name, format!("{}fn mk() -> Bx[string] {{ Bx {{ v: \"s\" }} }}\n{}fn main() {{ {} }}\n", dhead, give, body)));
+        }
+    }
     v
 }
 
